@@ -183,6 +183,11 @@ pub fn eval(ctx: &Ctx, op: &str, a: &[&str]) -> Option<String> {
             };
             Some(format!("{v1};{v2}"))
         }
+        // st.harm p lo hi : `utils::p_harmonic(n, p)` for every n in lo..=hi
+        "st.harm" => {
+            let (p, lo, hi) = (a[0].parse::<u32>().ok()?, a[1].parse::<u64>().ok()?, a[2].parse::<u64>().ok()?);
+            Some((lo..=hi).map(|n| format!("{:016x}", (if p == 1 { sfs_core::utils::harmonic(n) } else { sfs_core::utils::p_harmonic(n, p) }).to_bits())).collect::<Vec<_>>().join(";"))
+        }
         // st.geno kinds cols samples records  : create in-process from genotype codes, then the statistics
         "st.geno" => {
             let r = create::eval_mem(&[a[1], a[2], "N", a[3]])?;
@@ -231,6 +236,32 @@ pub fn gen_c06(ctx: &Ctx, rng: &mut Rng, out: &mut Vec<String>) {
         // the two D statistics are costly in exact arithmetic: in the sweep every fifth size carries them
         let kinds = if j < listed || n % 5 == 0 || n <= 40 { "pi,theta,d-tajima,d-fu-li,s,sum" } else { "pi,theta,s,sum" };
         out.push(format!("st.calc\t{kinds}\t{}\t{}", n + 1, bits(&data)));
+    }
+    // (a2) the harmonic sums behind theta and the D statistics, for EVERY n up to 12288 (thorough: 40000): tables, cut-offs and
+    //      series expansions may start or end anywhere (n = 2 x a cohort size, a power of two, ...)
+    {
+        let top: u64 = if t { 40000 } else { 12288 };
+        let mut lo = 0u64;
+        while lo <= top { let hi = (lo + 1023).min(top); out.push(format!("st.harm\t1\t{lo}\t{hi}")); out.push(format!("st.harm\t2\t{lo}\t{hi}")); lo = hi + 1; }
+        out.push("st.harm\t3\t0\t300".to_string());
+    }
+    // (a3) spectra with more entries than any block or buffer a summation is likely to use (1024, 2048, 4096 and off-by-some)
+    for (i, shape) in [vec![1024usize], vec![1025], vec![1500], vec![2047], vec![2049], vec![4100], vec![5009], vec![33, 33], vec![32, 32], vec![40, 30], vec![11, 11, 11], vec![6, 6, 6, 6], vec![7, 6, 5, 5]].into_iter().enumerate() {
+        let n: usize = shape.iter().product();
+        let data = counts(rng, n, if i % 2 == 0 { 1 } else { 5 });
+        let kinds = match shape.len() { 1 => "s,sum,pi", 2 => "s,sum,f2,fst,pi-xy", 3 => "s,sum,f3", _ => "s,sum,f4" };
+        out.push(format!("st.calc\t{kinds}\t{}\t{}", nats(&shape), bits(&data)));
+        if i % 3 == 0 || t { out.push(format!("st.cmd\t{kinds}\t12\t{}\t{}", nats(&shape), bits(&data))); }
+    }
+    // (a4) theta at 2 x the size of well-known panels (n = 5008: 1000 Genomes), sparse spectra
+    for n in [5008usize, 4096, 1024, 2504] {
+        // (the exact-rational model evaluates the harmonic number once per element: n = 5008 costs minutes and is left to the thorough
+        //  tier; the harmonic sums themselves are swept for every n above)
+        if !t && n != 1024 { continue; }
+        let mut data = vec![0.0f64; n + 1];
+        for k in [1usize, 2, 3, 7, n / 3, n / 2, n - 1] { data[k] = 1.0 + (k % 5) as f64; }
+        data[0] = 1000.0;
+        out.push(format!("st.calc\ttheta,s,sum\t{}\t{}", n + 1, bits(&data)));
     }
     // (b) all 14 statistics on spectra of every dimensionality, unequal axis lengths; wrong dimensionality gives the error
     for i in 0..(if t { 1500 } else { 160 }) {
@@ -338,6 +369,21 @@ pub fn gen_c14(ctx: &Ctx, rng: &mut Rng, out: &mut Vec<String>) {
         }
         if d == 3 { out.push(format!("st.rel\tf3f2\tf3\t{sh}\t{bs}\t-")); }
         if d == 4 { out.push(format!("st.rel\tf4f2\tf4\t{sh}\t{bs}\t-")); }
+    }
+    // the same relations on spectra with more entries than any block or buffer a summation is likely to use
+    for (i, shape) in [vec![1025usize], vec![1500], vec![2049], vec![4100], vec![33, 33], vec![40, 30], vec![11, 11, 11], vec![6, 6, 6, 6]].into_iter().enumerate() {
+        if !t && i % 2 == 1 && shape.len() == 1 { continue; }
+        let n: usize = shape.iter().product();
+        let data = counts(rng, n, 1);
+        let sh = nats(&shape); let bs = bits(&data);
+        let ks: Vec<&str> = match shape.len() { 1 => vec!["s", "sum", "pi"], 2 => vec!["s", "sum", "f2", "fst", "pi-xy"], 3 => vec!["s", "sum", "f3"], _ => vec!["s", "sum", "f4"] };
+        for k in &ks {
+            if !["sum"].contains(k) { out.push(format!("st.rel\tfold\t{k}\t{sh}\t{bs}\t-")); }
+            if !["sum", "f2", "f3", "f4"].contains(k) { out.push(format!("st.rel\tmono\t{k}\t{sh}\t{bs}\t{}", bits(&[rng.range(0, 100000) as f64, rng.range(0, 100000) as f64]))); }
+            out.push(format!("st.rel\tmonoip\t{k}\t{sh}\t{bs}\t{}", bits(&[rng.range(0, 100000) as f64, rng.range(0, 100000) as f64])));
+            out.push(format!("st.rel\tscale\t{k}\t{sh}\t{bs}\t{:016x}", (*rng.pick(&[2.0f64, 0.5, 3.0, 1e-3])).to_bits()));
+        }
+        out.push(format!("st.cmd\t{}\t12\t{sh}\t{bs}", ks.join(",")));
     }
     gen_hist(rng, if t { 1500 } else { 150 }, 4, out);
 }
